@@ -28,7 +28,7 @@ package client
 
 //@ objinv[C13.objinv C09.objinv C14.objinv C01.objinv C05.objinv] client.RpcMultiplexer : self.rw != nil && self.cancel != nil && self.handlers != nil && self.ctx != nil
 
-//@ chanclass client.handlers msg: m != nil && m.Id == tag(ch)
+//@ chanclass[C05.queue_carries_own_envelopes C01.queue_carries_own_envelopes C09.queue_carries_own_envelopes C13.queue_carries_own_envelopes C02.queue_carries_own_envelopes] client.handlers msg: m != nil && m.Id == tag(ch)
 
 //@ lock client.RpcMultiplexer.mutex teardown guards handlers, rErr
 //@   inv[C01.registry C05.registry C13.registry C14.registry] forall id Int :: id in self.handlers ==>
@@ -126,7 +126,10 @@ package client
 //@ objinv[C13.objinv C02.objinv C07.objinv C14.objinv C06.objinv C20.objinv C03.objinv] client.clientStream : self.ctx != nil && self.rw != nil && self.rCh != nil && self.teardown != nil && self.codec != nil
 //@ objinv[C13.objinv C02.objinv C07.objinv C14.objinv C06.objinv C20.objinv C03.objinv] client.clientStream : forall j Int :: 0 <= j && j < len(self.statsHandlers) ==> self.statsHandlers[j] != nil
 
-//@ chanclass client.rCh msg: m != nil
+//@ chanclass[C13.body_nonnil C02.body_nonnil] client.rCh msg: m != nil
+//@ chan H.client.clientStream.rCh class client.rCh
+//@ chan Mval.map_Luint64_Rchan_Pgoatorepo.Rpc class client.handlers
+//@ chan cell.Int._Pgithub.com_avos_io_goat_internal_client.RpcMultiplexer_.NewStreamReadWriter.respChan class client.handlers
 //@ objinv[C13.objinv C02.objinv] client.clientStream : isclass(self.rCh, "client.rCh")
 
 //@ lock client.clientStream.protected.Mutex guards protected.done, protected.headerErr, protected.eErr, protected.rErr, protected.trailer
